@@ -107,6 +107,8 @@ type Gen struct {
 	st      *State
 	defers  []deferred
 	curPos  token.Pos
+	curBlk  *ssa.BasicBlock
+	curIn   ssa.Instruction
 	loopOf  map[*ssa.BasicBlock]int // loop head -> ordinal
 	heads   []*ssa.BasicBlock
 	siteOrd map[string]int
